@@ -639,6 +639,10 @@ namespace
 
     std::vector <std::unique_ptr <value_die>> m_next;
 
+    // Whether the current DIE has already scheduled the DIE that its
+    // DW_AT_abstract_origin refers to.
+    bool m_origin_scheduled = false;
+
     void
     schedule (Dwarf_Attribute &at)
     {
@@ -649,8 +653,19 @@ namespace
       if (dwarf_formref_die (&at, &die_mem) == nullptr)
 	throw_libdw ();
 
-      m_next.push_back
-	(std::make_unique <value_die> (m_dwctx, die_mem, 0, m_doneness));
+      auto vd = std::make_unique <value_die> (m_dwctx, die_mem, 0, m_doneness);
+
+      // M_NEXT is a stack.  Whatever the order of the two attributes
+      // in the DIE, visit the DW_AT_abstract_origin DIE before the
+      // DW_AT_specification one, so that `attribute' integrates the
+      // same attributes as @AT_* and ?AT_* do.
+      if (at.code == DW_AT_specification && m_origin_scheduled)
+	m_next.insert (std::prev (m_next.end ()), std::move (vd));
+      else
+	m_next.push_back (std::move (vd));
+
+      if (at.code == DW_AT_abstract_origin)
+	m_origin_scheduled = true;
     }
 
     bool
@@ -662,6 +677,7 @@ namespace
       m_die = std::move (m_next.back ());
       m_next.pop_back ();
       m_it = attr_iterator {&m_die->get_die ()};
+      m_origin_scheduled = false;
       return true;
     }
 
@@ -1465,29 +1481,6 @@ or replaced since the Dwarf was opened.
 }
 
 
-std::unique_ptr <value_str>
-op_name_die::operate (std::unique_ptr <value_die> a) const
-{
-  if (a->is_cooked ())
-    {
-      // On cooked DIE's, `name` integrates.
-      const char *name = dwarf_diename (&a->get_die ());
-      if (name != nullptr)
-	return std::make_unique <value_str> (name, 0);
-      else
-	return nullptr;
-    }
-  // Unfortunately there's no non-integrating dwarf_diename
-  // counterpart.
-  else if (dwarf_hasattr (&a->get_die (), DW_AT_name))
-    {
-      Dwarf_Attribute attr = dwpp_attr (a->get_die (), DW_AT_name);
-      return std::make_unique <value_str> (dwpp_formstring (attr), 0);
-    }
-  else
-    return nullptr;
-}
-
 std::string
 op_name_die::docstring ()
 {
@@ -1750,14 +1743,28 @@ namespace
 	      return std::make_pair (find_attribute_result::not_found, nullptr);
 	  };
 
-	auto ret = recursively_find (DW_AT_specification);
+	// Like libdw's dwarf_attr_integrate and like attribute_producer,
+	// look at DW_AT_abstract_origin first.
+	auto ret = recursively_find (DW_AT_abstract_origin);
 	if (ret.first != find_attribute_result::not_found)
 	  return ret;
-	return recursively_find (DW_AT_abstract_origin);
+	return recursively_find (DW_AT_specification);
       }
 
     return std::make_pair (find_attribute_result::not_found, nullptr);
   }
+}
+
+std::unique_ptr <value_str>
+op_name_die::operate (std::unique_ptr <value_die> a) const
+{
+  // On cooked DIE's, `name` integrates, the same way as @AT_name does.
+  Dwarf_Attribute attr;
+  auto r = find_attribute (a->get_die (), DW_AT_name, a->get_doneness (),
+			   &attr, nullptr);
+  if (r.first == find_attribute_result::not_found)
+    return nullptr;
+  return std::make_unique <value_str> (dwpp_formstring (attr), 0);
 }
 
 std::unique_ptr <value_producer <value>>
